@@ -21,7 +21,7 @@ if [ ! -d "$W/target" ] && [ -d "$ROOT/engine/target/release" ]; then
   cp "$ROOT/engine/target/.rustc_info.json" "$ROOT/engine/target/CACHEDIR.TAG" "$W/target/" 2>/dev/null || true
 fi
 bin="$(echo "$PROP" | tr 'A-Z' 'a-z')"
-export CARGO_NET_OFFLINE=true CARGO_TARGET_DIR="$W/target" VERIF_ROOT="$W/root"
+export CARGO_NET_OFFLINE=true CARGO_TARGET_DIR="$W/target" VERIF_ROOT="$W/root" VERIF_NO_FUZZ=1
 if ! (cd "$W/engine" && cargo build --release --bin "$bin" >"$W/build-$bin.log" 2>&1); then
   echo "INCONCLUSIVE property=$PROP build failed on tree $TREE (see $W/build-$bin.log)"; tail -n 30 "$W/build-$bin.log"; exit 2
 fi
